@@ -93,22 +93,23 @@ type ReqScene struct {
 }
 
 type ReqOpts struct {
-	MaxProv    int  // providers listed in the context: 1..MaxProv
-	Batch      bool // a batch is in flight (requests, expiry entry)
-	AtExpiry   bool // the batch expires in this block
-	NewBatch   bool // a new-batch entry is pending at this height (no batch in flight)
-	NT, NV     int  // promotions per pricing
-	AllBound   bool // every listed provider has a binding
-	Module     bool // the context may belong to another module (callbacks registered)
-	ModuleOnly bool // with Module: the context always belongs to the other module
-	Earned     bool // providers may hold earned fees
-	NoSlash    bool // slash fraction fixed to 0 (lifecycle-focused scenes; slashing is decided by the C03/C04/C14 scenes)
-	ZeroDep    int  // the first ZeroDep providers' bindings may hold a zero deposit (refunded bindings)
-	MinReq     int  // at least MinReq requests in the batch in flight
-	Vol        bool // consumers may already have a request volume with the providers
-	Restart    bool // allow frequency == timeout: the next batch starts in the block in which this one expires
-	OneOutput  bool // stored responses all carry a well-formed output (their shape only matters to callbacks)
-	OnlyState  int  // -1: any state
+	MaxProv      int  // providers listed in the context: 1..MaxProv
+	Batch        bool // a batch is in flight (requests, expiry entry)
+	AtExpiry     bool // the batch expires in this block
+	NewBatch     bool // a new-batch entry is pending at this height (no batch in flight)
+	NT, NV       int  // promotions per pricing
+	AllBound     bool // every listed provider has a binding
+	Module       bool // the context may belong to another module (callbacks registered)
+	FixDiscounts bool // promotions carry concrete discounts (chosen among a few pairs)
+	ModuleOnly   bool // with Module: the context always belongs to the other module
+	Earned       bool // providers may hold earned fees
+	NoSlash      bool // slash fraction fixed to 0 (lifecycle-focused scenes; slashing is decided by the C03/C04/C14 scenes)
+	ZeroDep      int  // the first ZeroDep providers' bindings may hold a zero deposit (refunded bindings)
+	MinReq       int  // at least MinReq requests in the batch in flight
+	Vol          bool // consumers may already have a request volume with the providers
+	Restart      bool // allow frequency == timeout: the next batch starts in the block in which this one expires
+	OneOutput    bool // stored responses all carry a well-formed output (their shape only matters to callbacks)
+	OnlyState    int  // -1: any state
 }
 
 // ctxFields draws the lifecycle-independent fields of a context within the CTX invariant.
@@ -195,6 +196,21 @@ func NewReqScene(o ReqOpts) *ReqScene {
 		s.Earned0[i] = sdk.ZeroInt()
 		if o.AllBound || vf.Bool("bound"+digit(i)) {
 			s.Binds[i] = Binding(k, ctx, "b"+digit(i), Svc, s.Provs[i], s.Owner, o.NT, o.NV, i < o.ZeroDep)
+			if o.FixDiscounts {
+				dT, dV := sdk.NewDecWithPrec(5, 1), sdk.NewDecWithPrec(99, 2)
+				switch vf.Choice("discounts", 3) {
+				case 1:
+					dT, dV = sdk.NewDecWithPrec(5, 1), sdk.NewDecWithPrec(5, 1)
+				case 2:
+					dT, dV = sdk.NewDecWithPrec(333333333333333333, 18), sdk.NewDecWithPrec(7, 1)
+				}
+				for _, p := range s.Binds[i].Pricing.PromotionsByTime {
+					vf.Assume(p.Discount.Equal(dT))
+				}
+				for _, p := range s.Binds[i].Pricing.PromotionsByVolume {
+					vf.Assume(p.Discount.Equal(dV))
+				}
+			}
 			s.DepAcc0 = s.DepAcc0.Add(s.Binds[i].Deposit)
 			if o.NV > 0 || o.Vol {
 				s.Vol0[i] = vf.Uint64("vol" + digit(i))
